@@ -156,6 +156,15 @@ def fsdp_case(torch, cfg_kw, shape, a, b, hist, seed):
             msgs.append(f"step {t}: shard changed without a gradient")
         if msgs:
             break
+    if not msgs:
+        # the optimizer state of the shard is the state of its recovered sub-tensors: same number of state tensors as the
+        # serial optimizer holds for the pieces (a block id shared by two pieces would overwrite one of them)
+        from .c09 import count_tensors
+
+        n_fsdp = count_tensors({k: v for k, v in opt.state[p0].items() if k != "step"}) if p0 in opt.state else 0
+        n_twin = sum(count_tensors({k: v for k, v in tw.state[tp].items() if k != "step"}) for tp in tparams[:-1] if tp in tw.state)
+        if n_fsdp != n_twin:
+            msgs.append(f"optimizer state of the shard holds {n_fsdp} tensors, the serial optimizer holds {n_twin} for the recovered sub-tensors {[s for _, _, s in spans]}")
     return msgs[:2], len(pieces)
 
 
